@@ -54,7 +54,7 @@ func C06(sp *spec.Spec, ex *rt.Exchange) *Verdict {
 		v.Inconclusive = "result builder: " + firstLine(ex.StubErr)
 		return v
 	}
-	if ex.Panic != "" {
+	if ex.Panic != "" && ex.StubIn == nil {
 		v.add(mkKey("panic", "panic:"+panicSite(ex.Panic), "", Explain(sp, m, c.Sent)), "panic: %s", firstLine(ex.Panic))
 		return v
 	}
